@@ -1079,6 +1079,18 @@ def c04(tier, seed):
                     sh = sh[:len(DISCR_EXPRS[dname])]
                 form += 1
                 out.append(layout_enum(c.pid(), sh, dname, repr_, "both" if form % 2 == 0 else "po"))
+    # (A3) compound repr lists: the integer type is not the first (or not the only) entry of #[repr(..)]
+    for dname, repr_ in (("b200", "C, u8"), ("b200", "u8, C"), ("b128", "C, u8"), ("b255", "C, u8"), ("neg", "C, i8"), ("neg", "i8, C"),
+                         ("k1000", "C, u16"), ("implicit", "C, u8"), ("nonmono", "C, i8")):
+        for sh in (("gen", "none", "gen"), ("none", "gen"), ("gen", "gen", "none", "gen")):
+            n = len(sh)
+            ds = DISCRS[dname](n)
+            if len(ds) < n:
+                continue
+            form += 1
+            if tier == "quick" and form % 2 and dname not in ("b200", "b128"):
+                continue
+            out.append(layout_enum(c.pid(), sh, dname, repr_, "both" if form % 2 == 0 else "po"))
     # (B) concrete payload grid (Kani, real layouts)
     pls = ["u8", "bool", "char", "ref", "nz", "opt", "nest", "unit", "zst", "u32"]
     grid = []
@@ -1089,6 +1101,8 @@ def c04(tier, seed):
         if tier != "quick":
             grid += [((pk, "none", pk, "none"), "implicit", None), ((pk, pk, pk), "implicit", "C"), (("none", pk, "none", "none"), "mixed", "u8"),
                      ((pk,), "five", "u16"), ((pk, "none", "none"), "k1000", "i32"), (("none", pk), "i64", "i64")]
+    grid += [(("u8", "none"), "b200", "C, u8"), (("none", "u8"), "b200", "u8, C"), (("unit", "u8"), "b128", "C, u8"), (("u32", "none"), "b200", "C, u8"),
+             (("zst", "zst"), "b200", "C, u8"), (("u8", "u8"), "neg", "C, i8"), (("bool", "none"), "b255", "C, u8")]
     grid += [(("none",), "implicit", None), (("none",), "five", None), (("unit",), "implicit", None), (("zst", "zst"), "implicit", None),
              (("bool", "bool"), "implicit", None), (("opt", "nest", "none"), "implicit", None), (("ref", "nz"), "implicit", None)]
     for gi, (sh, dname, repr_) in enumerate(grid):
@@ -1100,8 +1114,10 @@ def c04(tier, seed):
 
 def canaries_c04(programs):
     out = []
-    gens = [p for p in programs if not p.tags.get("no_verus") and len(p.variants) >= 2]
-    conc = [p for p in programs if p.tags.get("no_verus") and len(p.variants) >= 2]
+    # the mutation (first variant believed to sort last) must change the order: the first variant is not already the greatest
+    live = lambda p: len(p.variants) >= 2 and p.discriminants()[0] != max(p.discriminants())
+    gens = [p for p in programs if not p.tags.get("no_verus") and live(p)]
+    conc = [p for p in programs if p.tags.get("no_verus") and live(p)]
     for P in gens[:1] + gens[-1:] + conc[:1]:
         Q = P.clone(); Q.pid = P.pid + "_canary"; Q.canary_of = P.pid
         d = Q.discriminants()
@@ -1466,15 +1482,21 @@ def c14(tier, seed):
                 fs[0].sem["_split_attrs"] = True
             P = add(into_program(c.pid(), "struct", [Variant(None, "named", fs)], ["u16", "u32"], "C14 Into method=`%s` split=%s" % (msp, split), 1 if split else 0))
     # ---- Debug: type name forms, bool forms, key forms, ignore forms, named_field forms
-    for j, tsp in enumerate(["Debug = Nn", 'Debug = "Nn"', "Debug(name = Nn)", "Debug(name(Nn))", 'Debug(name = "Nn")', 'Debug(name("Nn"))',
-                             "Debug(rename = Nn)", "Debug(rename(Nn))", 'Debug(rename = "Nn")']):
-        for k, ksp in enumerate(["Debug = kk", 'Debug = "kk"', "Debug(name = kk)", "Debug(name(kk))", 'Debug(name = "kk")', "Debug(rename = kk)", 'Debug(rename("kk"))']):
-            if tier == "quick" and (j + k) % 2:
-                continue
-            isp = (flag_forms("Debug") + ["Debug = false"])[(j + k) % 4]
-            fs = [Field("a", "T0", attrs=[ksp], debug={"key": "kk"}), Field("b", "T1", attrs=[isp], debug={"ignore": True}), Field("c", "T0", debug={})]
-            add(Program(c.pid(), "struct", "S", [Variant(None, "named", fs)], [tsp], generics=["T0", "T1"], inst={"T0": "u8", "T1": "u8"}, focus={"Debug"},
-                        note="C14 Debug type=`%s` key=`%s` ignore=`%s`" % (tsp, ksp, isp), debug={"name": "Nn", "named_field": None}))
+    # two name groups: ordinary identifiers, and raw identifiers (`r#type`): the name is the identifier's text as written,
+    # `r#` included, in the token forms and in the string forms alike
+    for grp, (tnm, knm) in enumerate((("Nn", "kk"), ("r#type", "r#fn"))):
+        for j, tsp in enumerate(["Debug = Nn", 'Debug = "Nn"', "Debug(name = Nn)", "Debug(name(Nn))", 'Debug(name = "Nn")', 'Debug(name("Nn"))',
+                                 "Debug(rename = Nn)", "Debug(rename(Nn))", 'Debug(rename = "Nn")']):
+            for k, ksp in enumerate(["Debug = kk", 'Debug = "kk"', "Debug(name = kk)", "Debug(name(kk))", 'Debug(name = "kk")', "Debug(rename = kk)", 'Debug(rename("kk"))']):
+                if tier == "quick" and (j + k + grp) % 2:
+                    continue
+                if grp and tier == "quick" and (j * 7 + k) % 3 == 2:
+                    continue
+                tsp2, ksp2 = tsp.replace("Nn", tnm), ksp.replace("kk", knm)
+                isp = (flag_forms("Debug") + ["Debug = false"])[(j + k) % 4]
+                fs = [Field("a", "T0", attrs=[ksp2], debug={"key": knm}), Field("b", "T1", attrs=[isp], debug={"ignore": True}), Field("c", "T0", debug={})]
+                add(Program(c.pid(), "struct", "S", [Variant(None, "named", fs)], [tsp2], generics=["T0", "T1"], inst={"T0": "u8", "T1": "u8"}, focus={"Debug"},
+                            note="C14 Debug type=`%s` key=`%s` ignore=`%s`" % (tsp2, ksp2, isp), debug={"name": tnm, "named_field": None}))
     for j, (nsp, nv) in enumerate([("name = false", False), ("name(false)", False), ("rename = false", False), ("name = true", True), ("name(true)", True)]):
         for k, (fsp, fv) in enumerate([("named_field = true", True), ("named_field(true)", True), ("named_field = false", False), ("named_field(false)", False)]):
             if nv is False and fv is True:
@@ -1485,9 +1507,14 @@ def c14(tier, seed):
             add(Program(c.pid(), "struct", "S", [Variant(None, "tuple", fs)], [meta], generics=["T0"], inst={"T0": "u8"}, focus={"Debug"},
                         note="C14 Debug `%s`" % meta, debug={"name": "default" if nv else False, "named_field": fv}))
     # variant level name forms in an enum
-    for j, vsp in enumerate(["Debug = Vv", 'Debug = "Vv"', "Debug(name = Vv)", "Debug(name(Vv))", "Debug(rename = Vv)", 'Debug(rename("Vv"))']):
+    for j, vsp in enumerate(["Debug = Vv", 'Debug = "Vv"', "Debug(name = Vv)", "Debug(name(Vv))", "Debug(rename = Vv)", 'Debug(rename("Vv"))',
+                             "Debug = r#loop", 'Debug = "r#loop"', "Debug(name = r#loop)", "Debug(name(r#loop))", 'Debug(rename("r#loop"))']):
         for tsp, tn in (("Debug", "default"), ("Debug(name = true)", True), ("Debug(name(true))", True)):
-            vs = [Variant("V0", "unit", [], attrs=[vsp], debug={"name": "Vv"}), Variant("V1", "tuple", [Field(None, "T0", debug={})], attrs=[vsp.replace("Vv", "Ww")], debug={"name": "Ww"}),
+            vn = "r#loop" if "r#loop" in vsp else "Vv"
+            wn = "r#mod" if vn == "r#loop" else "Ww"
+            if vn == "r#loop" and tn is True and tsp.endswith("(true))"):
+                continue
+            vs = [Variant("V0", "unit", [], attrs=[vsp], debug={"name": vn}), Variant("V1", "tuple", [Field(None, "T0", debug={})], attrs=[vsp.replace(vn, wn)], debug={"name": wn}),
                   Variant("V2", "named", [Field("a", "T0", debug={})], debug={"name": True})]
             add(Program(c.pid(), "enum", "E", vs, [tsp], generics=["T0"], inst={"T0": "u8"}, focus={"Debug"},
                         note="C14 Debug variant=`%s` type=`%s`" % (vsp, tsp), debug={"name": tn, "named_field": None}))
@@ -1561,10 +1588,64 @@ def c15_packed():
     return out
 
 
+def c15_deref():
+    """Deref and DerefMut educed next to each other and next to other traits, their markers on
+    DIFFERENT same-typed fields that also carry another trait's attribute: each impl follows its own marker"""
+    out = []
+    k = 0
+    others = [(["PartialEq", "Hash"], "eq", "PartialEq(ignore)", {"ignore": True}), (["Debug", "Clone"], "debug", "Debug(ignore)", {"ignore": True, "key": None, "method": None}),
+              (["Hash"], "hash", "Hash(method = crate::m::hash_a)", {"method": "crate::m::hash_a"}), (["PartialEq", "PartialOrd"], "ord", "PartialOrd(rank = 3)", {"rank": 3}),
+              (["Clone"], "clone", "Clone(method = crate::m::clone_b)", {"method": "crate::m::clone_b"})]
+    for oi, (otr, grp, attr, sem) in enumerate(others):
+        for shape in ("named", "tuple"):
+            for (dm, dmm) in ((0, 1), (1, 0), (2, 0), (1, 2)):
+                k += 1
+                if (k + oi) % 2:
+                    continue
+                fs = []
+                for i in range(3):
+                    full = {"eq": {}, "ord": {}, "hash": {}, "clone": {}, "debug": {"ignore": False, "key": None, "method": None}, "into": {"marks": {}},
+                            "deref": {"mark": i == dm}, "deref_mut": {"mark": i == dmm}}
+                    attrs = []
+                    if i in (dm, dmm):
+                        full[grp] = dict(sem)
+                        a = attr
+                        if grp == "ord":       # ranks must be distinct
+                            full[grp]["rank"] = 3 + 2 * i
+                            a = "PartialOrd(rank = %d)" % (3 + 2 * i)
+                        attrs.append(a)
+                    if i == dm:
+                        attrs.insert(k % 2 * len(attrs), "Deref")
+                    if i == dmm:
+                        attrs.insert((k // 2) % 2 * len(attrs), "DerefMut")
+                    f = Field(NAMES[i] if shape == "named" else None, "u8", attrs=attrs, **full)
+                    if len(attrs) > 1 and k % 3 == 0:
+                        f.sem["_split_attrs"] = True
+                    fs.append(f)
+                dd = [["Deref", "DerefMut"], ["DerefMut", "Deref"]][k % 2]
+                traits = (dd + otr) if k % 4 < 2 else (otr[:1] + dd + otr[1:])
+                kind = "struct" if k % 3 else "enum"
+                vs = [Variant(None if kind == "struct" else "V0", shape, fs, **({"debug": {"name": True, "named_field": None}} if kind == "enum" else {}))]
+                if kind == "enum":
+                    fs2 = copy.deepcopy(fs[:2])
+                    for f2 in fs2:
+                        f2.attrs = [a for a in f2.attrs if a not in ("Deref", "DerefMut")]
+                    fs2[0].sem["deref"] = {"mark": False}; fs2[0].sem["deref_mut"] = {"mark": True}; fs2[0].attrs.append("DerefMut")
+                    fs2[1].sem["deref"] = {"mark": True}; fs2[1].sem["deref_mut"] = {"mark": False}; fs2[1].attrs.insert(0, "Deref")
+                    vs.append(Variant("V1", "tuple" if shape == "named" else "named", [Field(NAMES[i] if shape != "named" else None, f2.ty, attrs=f2.attrs, **f2.sem) for i, f2 in enumerate(fs2)],
+                                      debug={"name": True, "named_field": None}))
+                P = Program("pd%03d" % k, kind, "S" if kind == "struct" else "E", vs, traits, focus=set(traits),
+                            note="C15 Deref/DerefMut markers on different fields next to %s, traits=%s" % (attr, traits),
+                            ord={"mode": "po"}, clone={"copy": False}, default={"new": False}, debug={"name": "default", "named_field": None})
+                P.tags["prop"] = "C15"
+                out.append(P)
+    return out
+
+
 def c15(tier, seed):
     rnd = random.Random(1000 + seed)
     c = Counter()
-    out = c15_structured() + c15_packed()
+    out = c15_structured() + c15_packed() + c15_deref()
     ALL = ["Debug", "PartialEq", "Eq", "PartialOrd", "Ord", "Hash", "Clone", "Default", "Into(u16)"]
     nprog = 24 if tier == "quick" else 360
     for pi in range(nprog):
@@ -2029,6 +2110,20 @@ def wide(prop):
                         else:
                             fs.append(Field(LONG[i] if shape == "named" else None, "u8", into={"marks": {}}))
                     out.append(into_program(pid(), "struct", [Variant(None, shape, fs)], ["u16"], "wide struct %s n=%d Into(u16)@%d" % (shape, n, at), 0))
+    if prop == "C05":
+        # more variants than a byte can number: a tag narrowed to u8 makes variants i and i+256 collide
+        vs = []
+        for i in range(258):
+            if i in (1, 257):
+                vs.append(Variant("V%d" % i, "tuple", [Field(None, "u8", hash={})]))
+            elif i == 130:
+                vs.append(Variant("V%d" % i, "named", [Field("a", "u8", hash={})]))
+            else:
+                vs.append(Variant("V%d" % i, "unit", []))
+        P = Program(pid(), "enum", "E", vs, ["Hash"], focus={"Hash"}, note="258-variant enum (variant positions beyond one byte)")
+        P.tags["no_verus"] = "258 x 258 case split of the injectivity lemma exceeds Z3's resource limit; decided by Kani (loop-free, full domain)"
+        out.append(P)
+
     return out
 
 
